@@ -1,4 +1,9 @@
-(* Proofs/BestFirstSpec4.v — c08_pruning_sound on the whole finite domain (<= 4 gates), assembled from the checked parts. *)
+(* Proofs/BestFirstSpec4.v — c08_pruning_sound on the larger finite domain (<= 4 gates, 14 510 circuits), assembled from the
+   checked parts BestFirstSpec (<= 3 gates) and BestFirstSpec4a..f (exactly 4 gates, ~4 CPU-minutes of vm_compute).
+   NOT imported by Properties/C08.v: coqchk re-checks vm_compute casts about 18x slower than coqc (measured: 63 s vs 3.4 s
+   for the 3-gate part), so the 4-gate part would take over an hour in the thorough tier's `coqchk -o`.
+   The statements are the same as c08_pruning_sound_bounded / c08_flag_sound_bounded with 4 in place of 3; the file is
+   compiled by coqc (closed under the global context). *)
 From Coq Require Import QArith Lia.
 From CKT Require Import Model.CutFinder Proofs.BestFirstP Proofs.BestFirstSpec
   Proofs.BestFirstSpec4a Proofs.BestFirstSpec4b Proofs.BestFirstSpec4c Proofs.BestFirstSpec4d Proofs.BestFirstSpec4e
@@ -23,7 +28,7 @@ Qed.
 Lemma c08_domain_gammas_ok lab c used : In (c, used) c08_domain -> gammas_ok (gates_from lab 0 c).
 Proof. intros I. exact (list_gammas_ok lab _ c used c08_domain_gammas I). Qed.
 
-Lemma pruning_sound_bounded lab c used : In (c, used) c08_domain ->
+Lemma pruning_sound_bounded4 lab c used : In (c, used) c08_domain ->
   forall nq W gl wl mg, used <= nq <= 4 -> 1 <= W <= 4 -> In (gl, wl) lo_combos ->
   pruning_sound_for (gates_from lab 0 c) gl wl W mg nq.
 Proof.
@@ -33,7 +38,7 @@ Proof.
   - destruct (c08_exact4_checked lab _ I4) as (l&Hl&Il). exact (list_check_sound lab 4 l Hl c used Il G).
 Qed.
 
-Lemma flag_sound_bounded fuel i r lab c used : In (c, used) c08_domain ->
+Lemma flag_sound_bounded4 fuel i r lab c used : In (c, used) c08_domain ->
   fa_gates (fa_of i) = gates_from lab 0 c -> used <= nq_of i <= 4 -> 1 <= fi_W i <= 4 ->
   In (fi_gate_lo i, fi_wire_lo i) lo_combos ->
   find_cuts_full fuel i = Val r -> md_minimum_reached (fr_meta r) = true ->
@@ -42,5 +47,8 @@ Lemma flag_sound_bounded fuel i r lab c used : In (c, used) c08_domain ->
 Proof.
   intros I Eg Hn HW Ilo H F. apply (flag_sound_spec fuel i r); auto.
   - unfold gammas_ok_in. rewrite Eg. eapply c08_domain_gammas_ok; eauto.
-  - rewrite Eg. eapply pruning_sound_bounded; eauto.
+  - rewrite Eg. eapply pruning_sound_bounded4; eauto.
 Qed.
+
+Print Assumptions pruning_sound_bounded4.
+Print Assumptions flag_sound_bounded4.
